@@ -130,6 +130,11 @@ def judge(case, items, acc, what, expect_items=None, opts=(), titrate_only=None)
         acc.nontrivial_n += 1
     try:
         mol = pk.run(text, opts)
+        if len(exp) <= 1 or acc.n % 16 == 0:
+            # the calculation includes the reported profiles, pI and the written file (few or no titratable groups left: flat curves)
+            pk.pka_text(mol)
+            mol.get_pi()
+            acc.extra['written'] += 1
     except Exception as exc:
         acc.outcomes['raised'] += 1
         acc.viols.append(Viol(case, 'graceful', 'truncation-raises/' + exc_key(exc), '%s: %s: %s' % (what, type(exc).__name__, str(exc)[:120]),
@@ -301,7 +306,10 @@ def run_case(case, ctx, acc):
         cases = [('empty', '', 'x.pdb'), ('remark-only', 'REMARK nothing\nEND\n', 'x.pdb'), ('water-only', 'HETATM    1  O   HOH A   1       0.000   0.000   0.000  1.00  0.00           O\n', 'x.pdb'),
                  ('hydrogens-only', 'ATOM      1  H   ALA A   1       0.000   0.000   0.000  1.00  0.00           H\n', 'x.pdb'),
                  ('ext-none', good, 'x'), ('ext-txt', good, 'x.txt'), ('ext-pqr', good, 'x.pqr'), ('ext-gz', good, 'x.pdb.gz'), ('ext-mol2', good, 'x.mol2'),
-                 ('ext-upper', good, 'x.PDB'), ('ext-mixed', good, 'x.Pdb')]
+                 ('ext-upper', good, 'x.PDB'), ('ext-mixed', good, 'x.Pdb'),
+                 ('ext-pdbqt', good, 'x.pdbqt'), ('ext-pdbx', good, 'x.pdbx'), ('ext-pdb1', good, 'x.pdb1'), ('ext-pdb-tilde', good, 'x.pdb~'),
+                 ('ext-PDBQT', good, 'x.PDBQT'), ('ext-pdb.bak', good, 'x.pdb.bak'), ('ext-pdb_bak', good, 'x.pdb_bak'), ('ext-ent', good, 'x.ent'),
+                 ('ext-dot', good, 'x.'), ('ext-cif', good, 'x.cif')]
         for name, text, fname in cases:
             acc.n += 1
             acc.nontrivial_n += 1
